@@ -179,7 +179,7 @@ func (f *bpFn) exprKey(v ssa.Value, params map[*ssa.Parameter]string, depth int)
 		name := ""
 		if b, ok := x.Call.Value.(*ssa.Builtin); ok {
 			name = "builtin." + b.Name()
-		} else if fn := x.Call.StaticCallee(); fn != nil && pureExternal[fn.String()] {
+		} else if fn := x.Call.StaticCallee(); fn != nil && isPureExternal(fn.String()) {
 			name = fn.String()
 		} else {
 			if params != nil {
